@@ -16,11 +16,13 @@ func (g *AsyncGroup) Go(fn func() error) {
 
 // Enqueue a task, serializing functions with the TaskQueue channel.
 func (g *AsyncGroup) Enqueue(tq *TaskQueue, fn func() error) {
+	verifTaskQueued()
 	tq.c <- fn
 	g.eg.Go(func() error {
 		tq.mu.Lock()
 		fn := <-tq.c
 		defer tq.mu.Unlock()
+		defer verifTaskFinished()
 		return fn()
 	})
 }
